@@ -15,6 +15,7 @@ DEC_COST = [0.0, 0.1, 1.0, 3.3, 7.7]
 SIZES = [0.5, 1.0, 1.0, 1.0, 2.0, 1.0, 1.0, 0.5, 2.0, 0.0]
 CAPS = [0.0, 0.5, 1.0, 1.0, 1.5, 2.0, 3.0, 1.0, 2.0, float("inf")]
 TIGHT_SIZES = [0.5, 1.0, 1.0, 1.0, 2.0, 1.0, 0.5, 1.000003, 0.500002]  # capacity contention: every component takes room, every workplace is small
+DEC_SIZES = [0.2, 0.8, 0.3, 0.7, 0.1, 0.9, 0.4, 0.6]  # fractions that sum to a capacity only up to rounding (1.0 - 0.8 < 0.2)
 TIGHT_CAPS = [0.5, 1.0, 1.0, 1.5, 2.0, 3.0]
 N_TASK_W = [(1, 4), (2, 14), (3, 20), (4, 20), (5, 16), (6, 11), (7, 8), (8, 7)]
 
@@ -67,6 +68,7 @@ def gen_profile(rng, focus=None):
     p["sd_zero"] = rng.random() < 0.2  # explicit standard-deviation entries of 0.0 (deterministic skills, other code path)
     p["empty_team"] = rng.random() < 0.06  # a team without workers
     p["assign_list"] = rng.random() < 0.15  # workflow built with `wf.task_list = [...]` (parent_workflow set lazily)
+    p["extend_links"] = rng.random() < 0.2  # dependencies made with extend_input_task_list instead of append_input_task
     p["int_kinds"] = rng.random() < 0.1  # dependency kinds given as the plain integers 0..3 (what the saved format holds)
     p["late_register"] = rng.random() < 0.12  # some tasks are registered in the workflow before they are linked, others after
     p["wp_targets_any"] = rng.random() < 0.15  # a workplace also lists tasks that have no component (`wp.extend_targeted_task_list(workflow.task_list)`)
@@ -133,7 +135,8 @@ def gen_model(rng, p, n_tasks=None):
     if p["comps"]:
         nc = rng.randint(1, 4)
         for k in range(nc):
-            comps.append({"id": "c%d" % k, "size": rng.choice(TIGHT_SIZES if p.get("tight") else SIZES), "children": []})
+            comps.append({"id": "c%d" % k, "size": rng.choice(DEC_SIZES if (p["alphabet"] == "decimal" and rng.random() < 0.5) else
+                                                              (TIGHT_SIZES if p.get("tight") else SIZES)), "children": []})
         if p["nested"]:
             for k in range(1, nc):
                 if rng.random() < 0.6:
@@ -155,7 +158,8 @@ def gen_model(rng, p, n_tasks=None):
         comps = []
         for t in tasks:
             if t.get("comp") is not None:
-                comps.append({"id": "c%d" % len(comps), "size": rng.choice(TIGHT_SIZES[:5]), "children": []})
+                comps.append({"id": "c%d" % len(comps), "size": rng.choice([0.8, 0.2, 0.9, 0.1, 0.2, 0.1] if p.get("dec_fit") else TIGHT_SIZES[:5]),
+                              "children": []})
                 t["comp"] = len(comps) - 1
     # organisation
     nt = wchoice(rng, [(1, 5), (2, 3), (3, 1)])
@@ -229,7 +233,8 @@ def gen_model(rng, p, n_tasks=None):
                 if p["solo"] and rng.random() < 0.3:
                     f["solo"] = True
                 facs.append(f)
-            wp = {"id": ("m%d" if p.get("same_group_ids") else "p%d") % k, "cap": rng.choice(TIGHT_CAPS if p.get("tight") else CAPS), "targets": targets, "inputs": [], "facs": facs}
+            wp = {"id": ("m%d" if p.get("same_group_ids") else "p%d") % k,
+                  "cap": 1.0 if p.get("dec_fit") else rng.choice(TIGHT_CAPS if p.get("tight") else CAPS), "targets": targets, "inputs": [], "facs": facs}
             if p["conveyor"] and k > 0:
                 wp["inputs"] = [i for i in range(k) if rng.random() < 0.5]
             wps.append(wp)
@@ -250,6 +255,8 @@ def gen_model(rng, p, n_tasks=None):
             t = tasks[i]
             if not t.get("auto") and rng.random() < 0.6:
                 t["nf"] = True
+            elif t.get("auto") and rng.random() < 0.15:
+                t["nf"] = True  # automatic AND facility-needing (an automatic curing step in a workplace): automatic wins
     elif p["comps"] and rng.random() < 0.3:
         # workplaces without facilities: placement only
         comp_tasks = [i for i, t in enumerate(tasks) if t.get("comp") is not None]
@@ -314,6 +321,8 @@ def gen_model(rng, p, n_tasks=None):
         m["order"] = order
     if p.get("int_kinds"):
         m["int_kinds"] = True
+    if p.get("extend_links"):
+        m["extend_links"] = True
     if p.get("wp_ctor_inputs") and any(wp.get("inputs") for wp in wps):
         m["wp_ctor_inputs"] = True
     if p.get("late_register") and n > 1 and not m.get("assign_list"):
